@@ -2114,9 +2114,15 @@ class Filter(Blockwise):
                     # sum is in the predicate of parent, then removing self would
                     # alter the condition of parent because the sum changes, this is
                     # only relevant in broadcasting cases
-                    return self.frame[
-                        self.predicate & parent.predicate.substitute(self, self.frame)
-                    ]
+                    predicate = parent.predicate.substitute(self, self.frame)
+                    if are_co_aligned(self.predicate, predicate):
+                        predicate = self.predicate & predicate
+                    else:
+                        # the mask of a FilterAlign is partitioned differently
+                        predicate = OpAlignPartitions(
+                            self.predicate, predicate, "__and__"
+                        )
+                    return self.frame[predicate]
         if isinstance(parent, Projection):
             if self.frame._filter_passthrough_available(self, dependents):
                 # We can't push Projections through filters if the preceding operation
